@@ -33,8 +33,8 @@ func djump(pc ProgramCounter, a uint32, jumpTable JumpTable, bitmask Bitmask) (E
 	index := a/ZA - 1 // GP,  if  ZA > 1, index = ZA*index
 	dest, _, err := ReadUintFixed(jumpTable.Data[index*jumpTable.Length:], int(jumpTable.Length))
 	if err != nil {
-		// memory corruption?
-		panic(err.Error())
+		// a jump-table entry that cannot be read (entry width above 8 octets) is no valid target
+		return ExitPanic, pc
 	}
 
 	newPC := ProgramCounter(dest)
